@@ -1074,6 +1074,11 @@ class MutableFileVersion:
             start = offset
             rest = offset + data.get_size()
             new = old[:start]
+            if len(new) < start:
+                # writing beyond the current end of the file: the new data
+                # belongs at `offset`, so fill the gap with zeros (as a
+                # POSIX write after a seek past EOF does).
+                new += b"\x00" * (start - len(new))
             new += b"".join(data.read(data.get_size()))
             new += old[rest:]
             return new
